@@ -368,14 +368,37 @@ def run(prog: Program, ctx: Ctx) -> None:  # noqa: PLR0912,PLR0915
     ctx.rule("R4", "the dataclasses extension is always loaded and runs when a package is loaded: load_extensions adds it on every path that does "
                    "not already hold one; every exit of GriffeLoader.load passes _post_load, which fires on_package_loaded")
     le = prog.function("_griffe.extensions.base.load_extensions")
-    cfgl = cfg_of(le)
-    adds = [x for x in cfgl.live_nodes() if x.kind == "stmt" and any(isinstance(c, ast.Call) and "dataclasses" in unparse(c) and isinstance(c.func, ast.Attribute) and c.func.attr == "add"
-                                                                     for c in walk_no_nested(x.stmt, include_self=True))]
-    ctx.ob("R4", key(le, "adds-dataclasses"), len(adds) == 1, "load_extensions adds the built-in dataclasses extension", where(le))
-    if adds:
-        brk = [x for x in cfgl.live_nodes() if isinstance(x.stmt, ast.Break)]
-        leak = cfgl.reach(cfgl.entry, avoid=lambda x: x in adds or x in brk, normal_only=True) & {cfgl.exit}
-        ctx.ob("R4", key(le, "on-every-path"), not leak, "every path that did not find an existing DataclassesExtension adds one", where(le))
+    # on behaviour: load_extensions evaluated with `_load_extension` replaced by a stand-in (instances pass through, the name "dataclasses" gives a
+    # list with a fresh built-in instance): whatever the user passes, the container ends up with exactly one built-in DataclassesExtension
+    dcl = prog.cls("_griffe.extensions.dataclasses.DataclassesExtension")
+    ecl = prog.cls("_griffe.extensions.base.Extension")
+    it4 = Interp(prog, max_depth=30)
+    made: list[Obj] = []
+
+    def fake_load(_i, spec):
+        if spec == "dataclasses":
+            made.append(Obj(dcl, {"__closed__": True}, label="built-in dataclasses extension"))
+            return [made[-1]]
+        return spec
+
+    it4.stubs["_griffe.extensions.base._load_extension"] = fake_load
+    user = Obj(ecl, {"__closed__": True}, label="user extension")
+    own = Obj(dcl, {"__closed__": True}, label="dataclasses extension passed by the user")
+    for label4, given in (("nothing", []), ("a user extension", [user]), ("two user extensions", [user, Obj(ecl, {"__closed__": True}, label="other")]),
+                          ("the dataclasses extension itself", [own]), ("a user extension and the dataclasses extension", [user, own]),
+                          ("a list of extensions from one specification", [[user, Obj(ecl, {"__closed__": True}, label="second of the list")]])):
+        made.clear()
+        try:
+            cont = it4.call(le, *given)
+            held = list(cont.attrs.get("_extensions", [])) if isinstance(cont, Obj) else None
+        except Raised as r:
+            held = f"raises {r.exc}"
+        flat = [x for g_ in given for x in (g_ if isinstance(g_, list) else [g_])]
+        builtin = [x for x in held if isinstance(x, Obj) and x.cls is dcl] if isinstance(held, list) else []
+        good = isinstance(held, list) and len(builtin) == 1 and [x for x in held if x not in made] == flat and (own not in flat or builtin == [own])
+        ctx.ob("R4", f"load_extensions|{label4}", good,
+               f"load_extensions given {label4}: the container holds {[getattr(x, 'label', x) for x in held] if isinstance(held, list) else held}; expected what was given, in order, "
+               "plus one built-in dataclasses extension unless one was given", where(le))
     ld = prog.function("_griffe.loader.GriffeLoader.load")
     cfgd = cfg_of(ld)
     rets = [x for x in cfgd.live_nodes() if x.kind == "return"]
